@@ -20,7 +20,7 @@ ASSUMPTIONS = [
     "'one common non-zero scalar' is stated division-free: accepted amplitudes are pairwise proportional to the reference entries, vanish outside the qubit subspace for qubits without a post-selection rule, and their squared norm is non-zero",
 ]
 BOUNDS = {
-    "quick": "2 qubits: every ordered pair of operations with at least one multi-qubit gate (cx/cz in both orientations, swap) plus single-gate programs, both values of allow_post_selection; 3 qubits: pairs of multi-qubit gates (incl. non-adjacent cx/cz, ccx/ccz in all target positions) and triples entangling-swap-entangling with allow_post_selection=True; 4 qubits: cx/cz on qubits up to three apart in both orientations (post-selection allowed); programs whose converted circuit carries more than 4 photons are outside the bound",
+    "quick": "2 qubits: every ordered pair of operations with at least one multi-qubit gate (cx/cz in both orientations, swap) plus single-gate programs, both values of allow_post_selection; 3 qubits: pairs of multi-qubit gates (incl. non-adjacent cx/cz, ccx/ccz in all target positions) and triples entangling-swap-entangling with allow_post_selection=True; 2-3 qubits: single multi-qubit gates on circuits made of 2-3 quantum registers; 4 qubits: cx/cz on qubits up to three apart in both orientations (post-selection allowed); programs whose converted circuit carries more than 4 photons are outside the bound",
     "thorough": "programs of length 3 on 2 qubits, photon bound 5",
 }
 OUTSIDE = "programs above the photon bound (heralded-only conversions of several entangling gates): covered only through C02 (wiring), C13 (each gate) and the stated composition lemma (a heralded gate that is exact and leak-free on the qubit subspace composes multiplicatively); more than 3 qubits"
